@@ -256,6 +256,16 @@ def junk_line(t, enc, style, errs):
         if enc == "utf-8" and t.chance(1, 3):
             payload = t.choice(["a\u2028b", "a\u0085b", "line\u2029end"]).encode("utf-8")
         jk = b"$HEX[" + payload.hex().encode("ascii") + b"]"
+    elif k == 3:
+        # a $HEX[] payload that is not valid in the training encoding: cut in the middle of a multi-byte character,
+        # a stray continuation byte, a byte the code page leaves undefined.  Skipped (how it is counted is the tool's
+        # convention) -- and nothing of it may reach the next lines
+        bad = {"utf-8": [b"caf\xc3", b"\xe2\x82", b"pw\xf0\x9f\x98", b"\xc3", b"ab\xe2", b"\xff\x41", b"a\xc3\x28", b"\x80",
+                         b"\xf0\x9f", b"summer\xd0"],
+               "ascii": [b"caf\xc3\xa9", b"\xff"], "cp1252": [b"ab\x81", b"\x8dx", b"x\x90"], "cp1251": [b"\x98x", b"ab\x98"]}.get(enc)
+        if bad:
+            jk = b"$HEX[" + t.choice(bad).hex().encode("ascii") + b"]"
+            counted = None
     if style == "count":
         if jk.strip() and t.chance(1, 2):
             jk = str(t.between(1, 3)).encode() + b" " + jk
